@@ -1,3 +1,4 @@
+import Ntrip.Guards.Apps
 import Ntrip.Proofs.PipeTerm
 import Ntrip.Proofs.SegmentRefine
 import Ntrip.Generated.Skeletons
@@ -79,5 +80,11 @@ theorem tie_skeletons :
     Gen.skeleton_filter_writeReadableMessages = some ["for", "recv ch", "return"] := by
   repeat' constructor
   all_goals decide
+
+/-- Tie T1 (guards): rtcmfilter. -/
+theorem tie_guards_filter : type_of% Ntrip.Guards.filter := Ntrip.Guards.filter
+
+/-- Tie T1 (guards): displayrtcm3. -/
+theorem tie_guards_display : type_of% Ntrip.Guards.display := Ntrip.Guards.display
 
 end Ntrip.C11
